@@ -18,7 +18,7 @@ import asyncio
 from typing import Any, Dict, List
 
 from vlib import h_state
-from vlib.h_state import SqliteEnv, TChild, cint, deq, to_plain, untraced
+from vlib.h_state import TState, SqliteEnv, TChild, cint, deq, to_plain, untraced
 from vlib.miniloop import MiniLoop
 
 from workflows.context.state_store import DictState, InMemoryStateStore
@@ -59,7 +59,7 @@ h_state.ensure_template()
 
 TMAX = B(2, 3)
 ST_MEM, ST_SQL = 0, 1
-OP_SET, OP_SET_STATE, OP_EDIT, OP_CLEAR = 0, 1, 2, 3
+OP_SET, OP_SET_STATE, OP_EDIT, OP_CLEAR, OP_SET_PARENT = 0, 1, 2, 3, 4
 NOPS = B(3, 4)
 
 
@@ -82,6 +82,10 @@ def ref_apply(state: Dict[str, Any], typed: bool, kind: int, i: int) -> Dict[str
         return {"x": c, "z": i}
     if kind == OP_CLEAR:
         return {"a": None, "b": [], "c": {}, "n": 7} if typed else {}
+    if kind == OP_SET_PARENT:      # typed only: a state of the PARENT type replaces the parent's fields, child-only fields stay
+        out = dict(state)
+        out["a"], out["b"] = c, [i]
+        return out
     out = dict(state)
     if typed:
         out["n"] = out["n"] + 1
@@ -120,6 +124,8 @@ async def _op(store: Any, typed: bool, kind: int, i: int, t: int, d: int) -> Non
         await store.set_state(TChild(a=c, b=[i]) if typed else DictState(x=c, z=i))
     elif kind == OP_CLEAR:
         await store.clear()
+    elif kind == OP_SET_PARENT:
+        await store.set_state(TState(a=c, b=[i]))
     else:
         async with store.edit_state() as s:
             if typed:
@@ -180,6 +186,24 @@ def ob_two_tasks(st: int, typed: int, k0: int, k1: int, t0: int, t1: int, d0: in
     ds = [cint(d0, 0, 3), cint(d1, 0, 3)]
     with untraced():
         return run_concurrently(st, typed == 1, kinds, ts, ds)
+
+
+@obligation(quick=150, thorough=300, partitions_quick=[f"st == {s}" for s in (0, 1)],
+            what="typed child state: an edit_state block that writes child-only fields (suspended inside) against set_state with a state of the "
+                 "PARENT type (merge: parent fields replaced, child-only fields kept) and against set / set_state(child): the final state "
+                 "equals one of the 2 serial results",
+            bounds={"stores": 2, "other op": "set / set_state(child) / set_state(parent)", "instants": "0..TMAX"})
+def ob_parent_state_vs_edit(st: int, kw: int, t0: int, t1: int, d0: int) -> bool:
+    """
+    pre: 0 <= st <= 1 and 0 <= kw <= 2 and 0 <= t0 <= TMAX and 0 <= t1 <= TMAX and 0 <= d0 <= TMAX
+    post: _
+    """
+    st, kw = cint(st, 0, 1), cint(kw, 0, 2)
+    other = [OP_SET, OP_SET_STATE, OP_SET_PARENT][kw]
+    ts = [cint(t0, 0, 3), cint(t1, 0, 3)]
+    d0 = cint(d0, 0, 3)
+    with untraced():
+        return run_concurrently(st, True, [OP_EDIT, other], ts, [d0, 0])
 
 
 @obligation(quick=150, thorough=900, partitions_quick=[f"st == {s} and k0 == {k}" for s in (0, 1) for k in range(3)],
